@@ -723,3 +723,219 @@ Proof.
   destruct (fetch_loop_fillnull v ew all) as (l & H1 & H2).
   exists l. split; [easy|]. now rewrite <- batch_cols_concat.
 Qed.
+
+(* ====================================================================== *)
+(* Several upstream streams                                                 *)
+(* ====================================================================== *)
+
+(* ---------- commands that need the whole input ---------- *)
+Lemma whole_run_from g : forall bs s,
+  concat (run_batches_from (whole_cmd g) s bs) = g (s ++ concat bs).
+Proof.
+  induction bs as [|b bs IH]; intros s; simpl.
+  - now rewrite !app_nil_r.
+  - rewrite IH. now rewrite app_assoc.
+Qed.
+
+Theorem whole_spec g bs : run (whole_cmd g) bs = g (concat bs).
+Proof. exact (whole_run_from g bs []). Qed.
+
+Theorem whole_chunk_inv g : chunk_inv (whole_cmd g).
+Proof. intros bs. rewrite !whole_spec. simpl. now rewrite app_nil_r. Qed.
+
+(* ---------- the Fetch loop on any two-pass processor ---------- *)
+Lemma twopass_first_pass t ew : forall rest (a : tp_S t) exh,
+  (exh = true -> rest = []) ->
+  exists d out, fetch_pass (twopass_proc t) twopass_flags ew (a, false) rest exh false
+            = FPassEnd d out /\ d_ps d = (fold_left (fun a b => fold_left (tp_collect t) b a) rest a, false).
+Proof.
+  induction rest as [|b r IH]; intros a exh Hex.
+  - simpl. destruct exh; simpl; do 2 eexists; split; reflexivity.
+  - destruct exh; [now specialize (Hex eq_refl)|].
+    cbn [fetch_pass twopass_proc twopass_flags pfinal pprocess is_bottleneck is_twopass negb orb andb fold_left].
+    apply IH. destruct r; [easy | discriminate].
+Qed.
+
+Lemma twopass_second_pass t ew all (a : tp_S t) : forall rest exh fuel,
+  (exh = true -> rest = []) -> (length rest < fuel)%nat ->
+  drive (twopass_proc t) twopass_flags ew all fuel (@mkDp (twopass_proc t) (a, true) rest exh true)
+  = Some (map (map (tp_apply t a)) rest).
+Proof.
+  induction rest as [|b r IH]; intros exh fuel Hex Hf; (destruct fuel as [|k]; [simpl in Hf; lia|]).
+  - cbn [drive]. unfold fetch. simpl. destruct exh; simpl; reflexivity.
+  - destruct exh; [now specialize (Hex eq_refl)|].
+    cbn [drive]. unfold fetch. simpl.
+    rewrite IH; [reflexivity | | simpl in Hf; lia].
+    destruct r; [easy | discriminate].
+Qed.
+
+Lemma fold_collect_concat t : forall all (a : tp_S t),
+  fold_left (fun a b => fold_left (tp_collect t) b a) all a = fold_left (tp_collect t) (concat all) a.
+Proof.
+  induction all as [|b r IH]; intros a; [easy|]. simpl. rewrite IH. now rewrite fold_left_app.
+Qed.
+
+(* first pass over all batches, rewind, second pass: every row transformed with the
+   summary of the WHOLE input, for any batching and both EOF conventions *)
+Theorem fetch_loop_twopass t ew all :
+  exists l, dp_run (twopass_proc t) twopass_flags ew all = Some l
+    /\ concat l = tp_sem t (concat all).
+Proof.
+  unfold dp_run.
+  destruct (twopass_first_pass t ew all (tp_init t) false) as (d & out & Hd & Hps); [discriminate|].
+  set (a := fold_left (fun a b => fold_left (tp_collect t) b a) all (tp_init t)) in *.
+  exists (map (map (tp_apply t a)) all). split.
+  - etransitivity; [| apply (twopass_second_pass t ew all a all false
+                 (S (S (length all + length all)))); [discriminate | lia] ].
+    cbn [drive]. unfold fetch at 1 3. cbn [d_ps d_rest d_exhausted d_first_done].
+    change (pinit (twopass_proc t)) with (tp_init t, false). rewrite Hd.
+    rewrite Hps. cbn [prewind twopass_proc fst].
+    destruct (fetch_pass (twopass_proc t) twopass_flags ew (a, true) all false true) eqn:E;
+      try reflexivity.
+    exfalso. eapply fetch_pass_second_no_passend. exact E.
+  - rewrite <- concat_map. unfold tp_sem, tp_summary. subst a. now rewrite fold_collect_concat.
+Qed.
+
+(* ---------- the planner ---------- *)
+Lemma can_parallel_from_sound : forall ks i0 i,
+  can_parallel_from false i0 (map flags_of ks) = (true, i) ->
+  (i0 <= i)%nat /\ nth_error ks (i - i0) = Some KAgg /\ Forall (fun k => k = KRowwise) (firstn (i - i0) ks).
+Proof.
+  induction ks as [|k ks IH]; intros i0 i H; [discriminate|].
+  destruct k; simpl in H; try discriminate.
+  - apply IH in H as (Hle & Hn & Hf).
+    split; [lia|]. replace (i - i0)%nat with (S (i - S i0)) by lia. simpl. split; [easy|]. now constructor.
+  - inversion H; subst. rewrite Nat.sub_diag. simpl. repeat split; [lia | constructor].
+Qed.
+
+(* the planner splits the chain only in front of an order-insensitive aggregation and only
+   over row-wise commands: never over head/dedup/streamstats/tail, a generator, or a
+   two-pass command (bin without span, fillnull without fields) *)
+Theorem planner_sound ks i :
+  can_parallel (map flags_of ks) = (true, i) ->
+  nth_error ks i = Some KAgg /\ Forall (fun k => k = KRowwise) (firstn i ks).
+Proof.
+  intros H. apply can_parallel_from_sound in H as (_ & Hn & Hf). now rewrite Nat.sub_0_r in *.
+Qed.
+
+(* ---------- the parallel plan for a mergeable aggregation ---------- *)
+Lemma flat_map_perm {A B} (f : A -> list B) a b : Permutation a b -> Permutation (flat_map f a) (flat_map f b).
+Proof.
+  induction 1; simpl.
+  - constructor.
+  - now apply Permutation_app_head.
+  - rewrite !app_assoc. apply Permutation_app_tail. apply Permutation_app_comm.
+  - eapply Permutation_trans; eauto.
+Qed.
+
+Lemma prefix_sem_perm fs : forall a b, Permutation a b -> Permutation (prefix_sem fs a) (prefix_sem fs b).
+Proof.
+  unfold prefix_sem. induction fs as [|f fs IH]; intros a b P; simpl; [easy|].
+  apply IH. now apply flat_map_perm.
+Qed.
+
+Lemma prefix_sem_app fs : forall a b, prefix_sem fs (a ++ b) = prefix_sem fs a ++ prefix_sem fs b.
+Proof.
+  unfold prefix_sem. induction fs as [|f fs IH]; intros a b; simpl; [easy|].
+  rewrite flat_map_app. apply IH.
+Qed.
+
+Lemma chain_sem_rowwise fs : forall rows (tl : list stage),
+  chain_sem (map (fun f => Stage (rowwise_cmd f) (fun x => x)) fs ++ tl) rows
+  = chain_sem tl (prefix_sem fs rows).
+Proof.
+  unfold prefix_sem. induction fs as [|f fs IH]; intros rows tl; simpl; [easy|].
+  rewrite IH. rewrite rowwise_spec. simpl. now rewrite app_nil_r.
+Qed.
+
+Section ParallelStats.
+  Variable m : monoid.
+  Variable inj : row -> mcar m.
+  Variable render : mcar m -> batch.
+  Hypothesis op_assoc : forall a b c, mop m a (mop m b c) = mop m (mop m a b) c.
+  Hypothesis op_zero_l : forall a, mop m (mzero m) a = a.
+  Hypothesis op_zero_r : forall a, mop m a (mzero m) = a.
+  Hypothesis op_comm : forall a b, mop m a b = mop m b a.
+
+  Lemma single_stats_plan_spec fs bs :
+    single_stats_plan m inj render fs bs = render (magg m inj (prefix_sem fs (concat bs))).
+  Proof.
+    unfold single_stats_plan. rewrite chain_meaning.
+    - rewrite chain_sem_rowwise. simpl.
+      rewrite (stats_spec m inj render op_assoc op_zero_l op_zero_r). simpl. now rewrite app_nil_r.
+    - apply Forall_app. split.
+      + apply Forall_forall. intros s Hs. apply in_map_iff in Hs as (f & <- & _). simpl.
+        split; [apply rowwise_chunk_inv | easy].
+      + constructor; [|constructor]. simpl. split; [|easy].
+        apply (stats_chunk_inv m inj render op_assoc op_zero_l op_zero_r).
+  Qed.
+
+  Lemma merge_partials fs : forall streams z,
+    fold_left (mop m) (map (fun s => magg m inj (prefix_sem fs (concat s))) streams) z
+    = mop m z (magg m inj (prefix_sem fs (concat (map (@concat row) streams)))).
+  Proof.
+    induction streams as [|s r IH]; intros z; simpl.
+    - unfold prefix_sem. assert (E : fold_left (fun rs f => flat_map f rs) fs (@nil row) = []).
+      { induction fs as [|f fs' IHf]; simpl; easy. }
+      rewrite E. unfold magg. simpl. now rewrite op_zero_r.
+    - rewrite IH. rewrite prefix_sem_app.
+      rewrite (magg_app m inj op_assoc op_zero_l op_zero_r). now rewrite op_assoc.
+  Qed.
+
+  (* for EVERY way of dealing the rows to k streams (any k, any order, any batching inside a
+     stream) the parallel plan returns what the single chain returns *)
+  Theorem parallel_stats_plan_equiv fs streams bs :
+    Permutation (concat (map (@concat row) streams)) (concat bs) ->
+    parallel_stats_plan m inj render fs streams = single_stats_plan m inj render fs bs.
+  Proof.
+    intros P. rewrite single_stats_plan_spec. unfold parallel_stats_plan.
+    rewrite merge_partials, op_zero_l. f_equal.
+    apply (magg_perm m inj op_assoc op_zero_l op_zero_r op_comm).
+    now apply prefix_sem_perm.
+  Qed.
+End ParallelStats.
+
+(* ---------- two-pass commands must not be split ---------- *)
+(* splitting is harmless exactly when every chain's own summary transforms its rows like
+   the summary of the whole input does *)
+Theorem twopass_split_guarded t streams :
+  (forall s r, In s streams -> In r s ->
+     tp_apply t (tp_summary t s) r = tp_apply t (tp_summary t (concat streams)) r) ->
+  tp_split_sem t streams = tp_sem t (concat streams).
+Proof.
+  intros H. unfold tp_split_sem, tp_sem. rewrite flat_map_concat_map, concat_map. f_equal.
+  apply map_ext_in. intros s Hs. apply map_ext_in. intros r Hr. now apply H.
+Qed.
+
+Definition flat : field := [108; 97; 116].
+(* bin lat bins=2: stream 1 = {0, 50}, stream 2 = {1000, 1050}.  Alone each stream gets span
+   100, together span 1000: the row lat=50 is in bin 0-1000 of the single chain and in no
+   bin that any split chain produces *)
+Definition bin_s1 : batch := [ [(flat, VNum 0)]; [(flat, VNum 50)] ].
+Definition bin_s2 : batch := [ [(flat, VNum 1000)]; [(flat, VNum 1050)] ].
+Theorem bin_split_refuted_thm :
+  tp_sem (bin_tp flat 2) (bin_s1 ++ bin_s2)
+    = map (fun s => [(flat, VStr s)]) [ [48;45;49;48;48;48]; [48;45;49;48;48;48];
+                                        [49;48;48;48;45;50;48;48;48]; [49;48;48;48;45;50;48;48;48] ]
+  /\ tp_split_sem (bin_tp flat 2) [bin_s1; bin_s2]
+    = map (fun s => [(flat, VStr s)]) [ [48;45;49;48;48]; [48;45;49;48;48];
+                                        [49;48;48;48;45;49;49;48;48]; [49;48;48;48;45;49;49;48;48] ]
+  /\ tp_split_sem (bin_tp flat 2) [bin_s1; bin_s2] <> tp_sem (bin_tp flat 2) (concat [bin_s1; bin_s2]).
+Proof. repeat split; vm_compute; try reflexivity. discriminate. Qed.
+
+(* fillnull value=0: stream 1 has only column a, stream 2 only column b *)
+Definition fn_s1 : batch := [ [(fa, VNum 1)] ].
+Definition fn_s2 : batch := [ [(fb, VNum 2)] ].
+Theorem fillnull_split_refuted_thm :
+  tp_sem (fillnull_tp (VStr [48])) (fn_s1 ++ fn_s2)
+    = [ [(fa, VNum 1); (fb, VStr [48])]; [(fb, VNum 2); (fa, VStr [48])] ]
+  /\ tp_split_sem (fillnull_tp (VStr [48])) [fn_s1; fn_s2] = [ [(fa, VNum 1)]; [(fb, VNum 2)] ]
+  /\ tp_split_sem (fillnull_tp (VStr [48])) [fn_s1; fn_s2]
+     <> tp_sem (fillnull_tp (VStr [48])) (concat [fn_s1; fn_s2]).
+Proof. repeat split; vm_compute; try reflexivity. discriminate. Qed.
+
+(* the guard is satisfiable: streams with the same value range *)
+Example twopass_split_guard_example :
+  tp_split_sem (bin_tp flat 2) [bin_s1 ++ bin_s2; bin_s2 ++ bin_s1]
+  = tp_sem (bin_tp flat 2) (concat [bin_s1 ++ bin_s2; bin_s2 ++ bin_s1]).
+Proof. vm_compute. reflexivity. Qed.
